@@ -7,7 +7,12 @@
 //	P;c c c ...                a Pruefer code (n = length + 2)
 //	T <rep> <n>;v-u v-u ...    a labelled tree, rep = d (DenseGraph) or s (SparseGraph)
 //	M <rep>;n:v-u,v-u n: ...   a sequence of graphs; each is encoded and decoded alone, the
-//	                           concatenation of the records goes through MulticodeDecodeMultiple
+//	                           concatenation of the records goes through MulticodeDecodeMultiple;
+//	                           all results are held at the same time and read at the end
+//	PP;c,c,c - c,c ...         a sequence of Pruefer codes ("-" is the empty code), results held
+//	TT <rep>;n:v-u,v-u ...     a sequence of labelled trees, results held
+//	GS <rep>;n:v-u,v-u ...     a sequence of graphs through graph6 / sparse6 with all decoded graphs
+//	                           held (oracle only; observation "gs=<count>")
 package main
 
 import (
@@ -243,37 +248,36 @@ func parseRecs(toks []string) []rec {
 
 func recText(r rec) string { return fmt.Sprintf("%d:%s", r.n, edgeText(r.es, ",")) }
 
+// execMulti holds the results of all calls at the same time: every MulticodeEncode result is
+// kept (not copied) while the later records are encoded, encoded a second time in reverse order,
+// and only then compared with its snapshot, decoded and concatenated; every decoded graph is
+// re-observed after its input slice has been overwritten and after all later decodes.  The
+// observation line is built from these late observations, so the stateless model gives the
+// expected values.
 func execMulti(rep byte, rs []rec) hx.Result {
 	var res hx.Result
 	fail := func(key, f string, a ...interface{}) { res.Viol = append(res.Viol, hx.Fail(key, f, a...)) }
-	var all []byte
-	var want, cs, raws, md []string
-	for _, r := range rs {
+	k := len(rs)
+	held := make([][]byte, k)  // the slices MulticodeEncode returned, never copied
+	snaps := make([][]byte, k) // their contents right after the call
+	want := make([]string, k)
+	graphs := make([]graph.Graph, k)
+	for i, r := range rs {
 		g := build(rep, r.n, r.es)
+		graphs[i] = g
 		var b []byte
 		if !call(func() { b = graph.MulticodeEncode(g) }) {
 			res.Obs = "mc=panic;md=na;mm=na"
 			return res
 		}
-		if msg := formatOK(b, r.n, r.es); msg != "" {
-			fail("C07:format:multicode", "MulticodeEncode(%s) = %s: %s", recText(r), hex(b), msg)
+		held[i] = b
+		snaps[i] = append([]byte(nil), b...)
+		if msg := formatOK(snaps[i], r.n, r.es); msg != "" {
+			fail("C07:format:multicode", "MulticodeEncode(%s) = %s: %s", recText(r), hex(snaps[i]), msg)
 		}
-		all = append(all, b...)
-		w := descrOf(r.n, r.es)
-		want = append(want, w)
-		cs = append(cs, hex(canon(b)))
-		raws = append(raws, hex(b))
-		var dg *graph.DenseGraph
-		d := "panic"
-		if call(func() { dg = graph.MulticodeDecode(append([]byte(nil), b...)) }) {
-			d = descr(dg)
-		}
-		md = append(md, d)
-		if d != w {
-			fail("C07:roundtrip:multicode", "MulticodeDecode(MulticodeEncode(g)) = %s, g = %s", d, w)
-		}
-		if after := descr(g); after != w {
-			fail("C07:argument-modified", "MulticodeEncode changed its argument: %s, was %s", after, w)
+		want[i] = descrOf(r.n, r.es)
+		if after := descr(g); after != want[i] {
+			fail("C07:argument-modified", "MulticodeEncode changed its argument: %s, was %s", after, want[i])
 		}
 		if len(r.es) > 0 {
 			res.Nontrivial = true
@@ -299,14 +303,99 @@ func execMulti(rep byte, rs []rec) hx.Result {
 			}
 		}
 	}
-	var gs []*graph.DenseGraph
+	// a second round of calls in reverse order (sizes run the other way), results held as well
+	again := make([][]byte, k)
+	for i := k - 1; i >= 0; i-- {
+		var b []byte
+		if !call(func() { b = graph.MulticodeEncode(graphs[i]) }) {
+			fail("C07:state:multicode-encode", "the second MulticodeEncode(%s) panics", recText(rs[i]))
+			continue
+		}
+		again[i] = b
+	}
+	for i := range rs {
+		if string(held[i]) != string(snaps[i]) {
+			fail("C07:aliasing:multicode-encode", "the result of MulticodeEncode(%s) was %s and reads %s after later calls", recText(rs[i]), hex(snaps[i]), hex(held[i]))
+		}
+		if again[i] != nil && string(again[i]) != string(snaps[i]) {
+			fail("C07:state:multicode-encode", "a second MulticodeEncode(%s) gives %s (read after later calls), the first gave %s", recText(rs[i]), hex(again[i]), hex(snaps[i]))
+		}
+	}
+	// decode every held result; keep the graphs, overwrite the input slices
+	dgs := make([]*graph.DenseGraph, k)
+	first := make([]string, k)
+	for i := range rs {
+		in := append([]byte(nil), held[i]...)
+		var dg *graph.DenseGraph
+		if !call(func() { dg = graph.MulticodeDecode(in) }) {
+			first[i] = "panic"
+			continue
+		}
+		dgs[i] = dg
+		first[i] = descr(dg)
+		for x := range in {
+			in[x] = 0xff
+		}
+		if d := descr(dg); d != first[i] {
+			fail("C07:aliasing:multicode-decode-input", "MulticodeDecode result reads %s after its input was overwritten, was %s", d, first[i])
+		}
+	}
+	md := make([]string, k)
+	cs := make([]string, k)
+	raws := make([]string, k)
+	var all []byte
+	for i := range rs {
+		md[i] = first[i]
+		if dgs[i] != nil {
+			md[i] = descr(dgs[i])
+			if md[i] != first[i] {
+				fail("C07:aliasing:multicode-decode", "MulticodeDecode result reads %s after later calls, was %s", md[i], first[i])
+			}
+		}
+		if md[i] != want[i] {
+			fail("C07:roundtrip:multicode", "MulticodeDecode(MulticodeEncode(g)) = %s, g = %s", md[i], want[i])
+		}
+		cs[i] = hex(canon(held[i]))
+		raws[i] = hex(held[i])
+		all = append(all, held[i]...)
+	}
+	// MulticodeDecodeMultiple twice on private copies; the first result is held across the
+	// second call and the overwriting of both inputs
+	var gs, gs2 []*graph.DenseGraph
 	mm := "panic"
-	if call(func() { gs = graph.MulticodeDecodeMultiple(append([]byte(nil), all...)) }) {
+	in1 := append([]byte(nil), all...)
+	if call(func() { gs = graph.MulticodeDecodeMultiple(in1) }) {
 		ds := make([]string, len(gs))
 		for i, g := range gs {
 			ds[i] = descr(g)
 		}
+		mm0 := "ok:" + strings.Join(ds, "|")
+		for x := range in1 {
+			in1[x] = 0xff
+		}
+		in2 := append([]byte(nil), all...)
+		ok2 := call(func() { gs2 = graph.MulticodeDecodeMultiple(in2) })
+		for x := range in2 {
+			in2[x] = 0
+		}
+		for i, g := range gs {
+			ds[i] = descr(g)
+		}
 		mm = "ok:" + strings.Join(ds, "|")
+		if mm != mm0 {
+			fail("C07:aliasing:multicode-multiple", "MulticodeDecodeMultiple result reads %s after its input was overwritten and a second call, was %s", mm, mm0)
+		}
+		if ok2 {
+			ds2 := make([]string, len(gs2))
+			for i, g := range gs2 {
+				ds2[i] = descr(g)
+			}
+			if m2 := "ok:" + strings.Join(ds2, "|"); m2 != mm0 {
+				fail("C07:state:multicode-multiple", "a second MulticodeDecodeMultiple gives %s, the first gave %s", m2, mm0)
+			}
+		} else {
+			fail("C07:state:multicode-multiple", "a second MulticodeDecodeMultiple panics")
+		}
 	}
 	if w := "ok:" + strings.Join(want, "|"); mm != w {
 		fail("C07:roundtrip:multicode-multiple", "MulticodeDecodeMultiple of the concatenated records = %s, the graphs are %s", mm, w)
@@ -433,6 +522,222 @@ func execTree(rep byte, n int, es []edge) hx.Result {
 	return res
 }
 
+// execCodeSeq decodes a sequence of codes, holding all returned graphs at once: each graph is
+// observed after its input slice was overwritten and again after all later calls; then all
+// graphs are encoded, all returned codes held and read at the end.
+func execCodeSeq(codes [][]int) hx.Result {
+	var res hx.Result
+	fail := func(key, f string, a ...interface{}) { res.Viol = append(res.Viol, hx.Fail(key, f, a...)) }
+	k := len(codes)
+	for _, code := range codes {
+		for _, c := range code {
+			if c < 0 || c >= len(code)+2 {
+				return hx.Result{Obs: "badcase"}
+			}
+		}
+		if len(code) > 0 {
+			res.Nontrivial = true
+		}
+	}
+	gs := make([]*graph.DenseGraph, k)
+	first := make([]string, k)
+	for i, code := range codes {
+		in := append([]int(nil), code...)
+		var g *graph.DenseGraph
+		if !call(func() { g = graph.PruferDecode(in) }) {
+			first[i] = "panic"
+			fail("C07:prufer:decode-panic", "PruferDecode(%v) panics", code)
+			continue
+		}
+		gs[i] = g
+		first[i] = "ok:" + descr(g)
+		for x := range in {
+			in[x] = len(code) + 1 - in[x]
+		}
+		if d := "ok:" + descr(g); d != first[i] {
+			fail("C07:aliasing:prufer-decode-input", "PruferDecode(%v) reads %s after its input was overwritten, was %s", code, d, first[i])
+		}
+	}
+	held := make([][]int, k)
+	snaps := make([]string, k)
+	for i := k - 1; i >= 0; i-- { // the other way round
+		if gs[i] == nil {
+			snaps[i] = "na"
+			continue
+		}
+		var c []int
+		if !call(func() { c = graph.PruferEncode(gs[i]) }) {
+			snaps[i] = "panic"
+			continue
+		}
+		held[i] = c
+		snaps[i] = hx.Ints(c)
+	}
+	parts := make([]string, k)
+	for i, code := range codes {
+		pd := first[i]
+		if gs[i] != nil {
+			pd = "ok:" + descr(gs[i])
+			if pd != first[i] {
+				fail("C07:aliasing:prufer-decode", "PruferDecode(%v) reads %s after later calls, was %s", code, pd, first[i])
+			}
+			if !isTree(gs[i]) {
+				fail("C07:prufer:not-a-tree", "PruferDecode(%v) = %s is not a tree", code, pd)
+			}
+		}
+		pe := snaps[i]
+		if held[i] != nil {
+			pe = hx.Ints(held[i])
+			if pe != snaps[i] {
+				fail("C07:aliasing:prufer-encode", "the result of PruferEncode read %s and reads %s after later calls", snaps[i], pe)
+			}
+		}
+		if gs[i] != nil && pe != hx.Ints(code) {
+			fail("C07:prufer:encode-decode", "PruferEncode(PruferDecode(%v)) = %s", code, pe)
+		}
+		if gs[i] == nil {
+			parts[i] = "pd=panic;pe=na"
+		} else {
+			parts[i] = fmt.Sprintf("pd=%s;pe=%s", pd, pe)
+		}
+	}
+	res.Obs = strings.Join(parts, "|")
+	res.Buckets = []string{"prufer/code-sequence", fmt.Sprintf("prufer/code-sequence/%d", k)}
+	return res
+}
+
+// execTreeSeq encodes a sequence of labelled trees holding all returned codes, then decodes
+// private copies of the held codes holding all graphs, and reads everything at the end.
+func execTreeSeq(rep byte, rs []rec) hx.Result {
+	var res hx.Result
+	fail := func(key, f string, a ...interface{}) { res.Viol = append(res.Viol, hx.Fail(key, f, a...)) }
+	k := len(rs)
+	graphs := make([]graph.Graph, k)
+	want := make([]string, k)
+	for i, r := range rs {
+		graphs[i] = build(rep, r.n, r.es)
+		if r.n < 2 || !isTree(graphs[i]) {
+			return hx.Result{Obs: "badcase"}
+		}
+		want[i] = "ok:" + descrOf(r.n, r.es)
+		if len(r.es) > 1 {
+			res.Nontrivial = true
+		}
+	}
+	held := make([][]int, k)
+	snaps := make([]string, k)
+	for i := range rs {
+		var c []int
+		if !call(func() { c = graph.PruferEncode(graphs[i]) }) {
+			snaps[i] = "panic"
+			fail("C07:prufer:encode-panic", "PruferEncode(%s) panics", want[i])
+			continue
+		}
+		held[i] = c
+		snaps[i] = hx.Ints(c)
+		if after := "ok:" + descr(graphs[i]); after != want[i] {
+			fail("C07:argument-modified", "PruferEncode changed its argument: %s, was %s", after, want[i])
+		}
+	}
+	ts := make([]*graph.DenseGraph, k)
+	for i := k - 1; i >= 0; i-- {
+		if held[i] == nil {
+			continue
+		}
+		if pe := hx.Ints(held[i]); pe != snaps[i] {
+			fail("C07:aliasing:prufer-encode", "the result of PruferEncode(%s) read %s and reads %s after later calls", want[i], snaps[i], pe)
+		}
+		in := append([]int(nil), held[i]...)
+		var t *graph.DenseGraph
+		if call(func() { t = graph.PruferDecode(in) }) {
+			ts[i] = t
+		}
+		for x := range in {
+			in[x] = 0
+		}
+	}
+	parts := make([]string, k)
+	for i := range rs {
+		if held[i] == nil {
+			parts[i] = "pe=panic;pd=na"
+			continue
+		}
+		pd := "panic"
+		if ts[i] != nil {
+			pd = "ok:" + descr(ts[i])
+		}
+		if pd != want[i] {
+			fail("C07:prufer:decode-encode", "PruferDecode(PruferEncode(t)) = %s (read after later calls), t = %s", pd, want[i])
+		}
+		parts[i] = fmt.Sprintf("pe=%s;pd=%s", hx.Ints(held[i]), pd)
+	}
+	res.Obs = strings.Join(parts, "|")
+	res.Buckets = []string{"prufer/tree-sequence", fmt.Sprintf("prufer/tree-sequence/%d", k), fmt.Sprintf("rep=%c", rep)}
+	return res
+}
+
+// execG6Seq is an oracle-only case (the model side prints the same constant line): a sequence
+// of graphs goes through Graph6Encode / Sparse6Encode and the decoders with all decoded graphs
+// held at the same time; they are read after all later calls, and every call is repeated in
+// reverse order and compared with its first result (no state between calls).
+func execG6Seq(rep byte, rs []rec) hx.Result {
+	var res hx.Result
+	fail := func(key, f string, a ...interface{}) { res.Viol = append(res.Viol, hx.Fail(key, f, a...)) }
+	k := len(rs)
+	graphs := make([]graph.Graph, k)
+	want := make([]string, k)
+	g6 := make([]string, k)
+	s6 := make([]string, k)
+	dg := make([]*graph.DenseGraph, k)
+	sg := make([]*graph.SparseGraph, k)
+	for i, r := range rs {
+		graphs[i] = build(rep, r.n, r.es)
+		want[i] = descrOf(r.n, r.es)
+		if len(r.es) > 0 {
+			res.Nontrivial = true
+		}
+		if !call(func() { g6[i] = graph.Graph6Encode(graphs[i]); s6[i] = graph.Sparse6Encode(graphs[i]) }) {
+			fail("C07:seq:encode-panic", "Graph6Encode/Sparse6Encode(%s) panics", want[i])
+			res.Obs = fmt.Sprintf("gs=%d", k)
+			return res
+		}
+		var e1, e2 error
+		if !call(func() { dg[i], e1 = graph.Graph6Decode(g6[i]); sg[i], e2 = graph.Sparse6Decode(s6[i]) }) || e1 != nil || e2 != nil {
+			fail("C07:seq:decode", "Graph6Decode/Sparse6Decode of the encodings of %s fails", want[i])
+			dg[i], sg[i] = nil, nil
+		}
+	}
+	for i := k - 1; i >= 0; i-- {
+		var a, b string
+		if call(func() { a = graph.Graph6Encode(graphs[i]); b = graph.Sparse6Encode(graphs[i]) }) {
+			if a != g6[i] || b != s6[i] {
+				fail("C07:state:graph6-sparse6-encode", "a second encoding of %s gives %q / %q, the first gave %q / %q", want[i], a, b, g6[i], s6[i])
+			}
+		}
+		var d2 *graph.DenseGraph
+		var s2 *graph.SparseGraph
+		if call(func() { d2, _ = graph.Graph6Decode(">>graph6<<" + g6[i]); s2, _ = graph.Sparse6Decode(">>sparse6<<" + s6[i]) }) && d2 != nil && s2 != nil {
+			if descr(d2) != want[i] || descr(s2) != want[i] {
+				fail("C07:state:graph6-sparse6-decode", "a second decoding gives %s / %s, the graph is %s", descr(d2), descr(s2), want[i])
+			}
+		}
+	}
+	for i := range rs {
+		if dg[i] != nil && descr(dg[i]) != want[i] {
+			fail("C07:aliasing:graph6-decode", "the result of Graph6Decode reads %s after later calls, the graph is %s", descr(dg[i]), want[i])
+		}
+		if sg[i] != nil && descr(sg[i]) != want[i] {
+			fail("C07:aliasing:sparse6-decode", "the result of Sparse6Decode reads %s after later calls, the graph is %s", descr(sg[i]), want[i])
+		}
+		if after := descr(graphs[i]); after != want[i] {
+			fail("C07:argument-modified", "an encoder changed its argument: %s, was %s", after, want[i])
+		}
+	}
+	res.Obs = fmt.Sprintf("gs=%d", k)
+	res.Buckets = []string{"graph6-sparse6/sequence", fmt.Sprintf("rep=%c", rep)}
+	return res
+}
+
 func exec(line string) hx.Result {
 	i := strings.Index(line, ";")
 	if i < 0 {
@@ -462,6 +767,26 @@ func exec(line string) hx.Result {
 		return execTree(head[1][0], n, parseEdges(toks))
 	case head[0] == "M" && len(head) == 2:
 		return execMulti(head[1][0], parseRecs(toks))
+	case head[0] == "PP" && len(head) == 1:
+		var codes [][]int
+		for _, t := range toks {
+			var code []int
+			if t != "-" {
+				for _, x := range strings.Split(t, ",") {
+					c, err := strconv.Atoi(x)
+					if err != nil {
+						return hx.Result{Obs: "badcase"}
+					}
+					code = append(code, c)
+				}
+			}
+			codes = append(codes, code)
+		}
+		return execCodeSeq(codes)
+	case head[0] == "TT" && len(head) == 2:
+		return execTreeSeq(head[1][0], parseRecs(toks))
+	case head[0] == "GS" && len(head) == 2:
+		return execG6Seq(head[1][0], parseRecs(toks))
 	}
 	return hx.Result{Obs: "badcase"}
 }
@@ -735,6 +1060,125 @@ func gen(g *hx.Gen) {
 		multiCase(reps[(i+1)%2], []rec{randRec(), big(n), randRec()})
 	}
 	multiCase('d', []rec{{255, nil}})
+
+	// ---- results of successive calls held at the same time (returned buffers must not be
+	// shared, inputs must not be retained, no state between calls): sequences whose sizes go
+	// down, up and stay equal around the capacity boundaries 8, 16, ..., 256
+	sized := func(size int) rec { // a graph whose record has exactly `size` bytes (m + n)
+		if size < 2 {
+			size = 2
+		}
+		nmin := 2
+		for nmin*(nmin-1)/2+nmin < size {
+			nmin++
+		}
+		nmax := size
+		if nmax > 64 {
+			nmax = 64
+		}
+		if nmax < nmin {
+			nmax = nmin
+		}
+		n := r.Range(nmin, nmax)
+		m := size - n
+		perm := r.Perm(n * (n - 1) / 2)
+		pick := map[int]bool{}
+		for _, x := range perm[:m] {
+			pick[x] = true
+		}
+		var es []edge
+		p := 0
+		for v := 1; v < n; v++ {
+			for u := 0; u < v; u++ {
+				if pick[p] {
+					es = append(es, edge{v, u})
+				}
+				p++
+			}
+		}
+		return rec{n, es}
+	}
+	patterns := func(b int) [][]int {
+		return [][]int{{b, b - 1}, {b - 1, b, b + 1}, {b + 1, b, b - 1, b / 2}, {b, b}, {b / 2, 2 * b, b / 2, b}, {2 * b, b, b / 2, b / 4, 2}}
+	}
+	randCode := func(n int) []int {
+		code := make([]int, n-2)
+		for j := range code {
+			code[j] = r.Intn(n)
+		}
+		return code
+	}
+	codeSeqCase := func(codes [][]int) {
+		toks := make([]string, len(codes))
+		for i, c := range codes {
+			if len(c) == 0 {
+				toks[i] = "-"
+				continue
+			}
+			x := make([]string, len(c))
+			for j, v := range c {
+				x[j] = strconv.Itoa(v)
+			}
+			toks[i] = strings.Join(x, ",")
+		}
+		g.Emit("PP;" + strings.Join(toks, " "))
+	}
+	treeSeqCase := func(rep byte, rs []rec) {
+		toks := make([]string, len(rs))
+		for i, x := range rs {
+			toks[i] = recText(x)
+		}
+		g.Emit(fmt.Sprintf("TT %c;%s", rep, strings.Join(toks, " ")))
+	}
+	reps2 := 0
+	for round := 0; round < g.Pick(1, 8); round++ {
+		for _, b := range []int{8, 16, 32, 64, 128, 256} {
+			for _, pat := range patterns(b) {
+				rs := make([]rec, len(pat))
+				for i, sz := range pat {
+					rs[i] = sized(sz)
+				}
+				reps2++
+				multiCase(reps[reps2%2], rs)
+				g6rs := make([]string, len(rs))
+				for i, x := range rs {
+					g6rs[i] = recText(x)
+				}
+				g.Emit(fmt.Sprintf("GS %c;%s", reps[(reps2+1)%2], strings.Join(g6rs, " ")))
+			}
+		}
+		for _, b := range []int{8, 16, 32, 64} { // code lengths / vertex counts
+			for _, pat := range patterns(b) {
+				var codes [][]int
+				var ts []rec
+				for _, sz := range pat {
+					if sz > 66 {
+						sz = 66
+					}
+					if sz < 2 {
+						sz = 2
+					}
+					codes = append(codes, randCode(sz+2))
+					ts = append(ts, rec{sz + 1, randTree(r, sz+1)})
+				}
+				reps2++
+				codeSeqCase(codes)
+				treeSeqCase(reps[reps2%2], ts)
+			}
+		}
+	}
+	for i := 0; i < g.Pick(200, 4000); i++ {
+		k := r.Range(2, 6)
+		var codes [][]int
+		var ts []rec
+		for j := 0; j < k; j++ {
+			codes = append(codes, randCode(r.Range(2, 12)))
+			n := r.Range(2, 12)
+			ts = append(ts, rec{n, randTree(r, n)})
+		}
+		codeSeqCase(codes)
+		treeSeqCase(reps[i%2], ts)
+	}
 	multiCase('d', []rec{{0, nil}, {255, []edge{{254, 0}, {254, 253}}}, {1, nil}, {255, nil}, {0, nil}})
 }
 
